@@ -383,6 +383,10 @@ pub fn def(ctx: &Ctx) -> PropDef {
         },
         check_core,
     ));
+    if ctx.tier == crate::engine::Tier::Thorough {
+        subs.push(crate::props::fuzzsub::FuzzSub::boxed("fz_hist", "C10", 300000, false));
+        subs.push(crate::props::fuzzsub::FuzzSub::boxed("fz_hist", "C10", 300000, true));
+    }
     PropDef {
         id: "C10",
         rule: "cases: (a) clone: 19 types x constructor x pre-advance (every buffer index) x history (incl. jumps) then clone, == where provided, a generated continuation (incl. jumps) on both, == again; (b) near-equal pairs: same history / re-chunked history consuming the same words / one extra call / unrelated history / seed with one bit flipped / serde image with exactly one numeric state field changed and restored through Deserialize; oracle: if a == b then every continuation value is equal and a == b still holds (nothing asserted when a != b), == symmetric, identically driven generators are ==; (c) Hc128Rng: same seed, different read positions inside one 16-word block must be !=; (d) public cores Hc128Core/IsaacCore/Isaac64Core through BlockRngCore::generate incl. serde-crafted one-field differences. Non-trivial = state not freshly seeded and continuation >= 2 ops (pairs: == available); distinct by hash of the case.".into(),
